@@ -741,19 +741,27 @@ type dataCase struct {
 	Text   string `json:"text"`
 	Nested bool   `json:"nested,omitempty"` // d/d.json instead of d.json
 	Via    string `json:"via"`              // main | module | include
+	Search bool   `json:"search,omitempty"` // the file lives in X/, reached through a search entry (relative from a module)
+	CLI    bool   `json:"cli,omitempty"`    // through the command (-L) instead of the library
 }
 
+// checkData: a data file is accepted iff it is a white-space separated
+// sequence of complete JSON values (the harness's own recogniser decides);
+// accepted: $d == $d::d == the array of those values; rejected: the program
+// does not compile and produces nothing.
 func checkData(dc dataCase) string {
+	texts, accepted, adjacent := scanDataFile(dc.Text)
+	if adjacent {
+		rec.Discard("data: two values with no white space between them (not claimed)")
+		return ""
+	}
 	want := []any{}
-	dec := json.NewDecoder(strings.NewReader(dc.Text))
-	dec.UseNumber()
-	for {
+	for _, tx := range texts {
 		var v any
-		if err := dec.Decode(&v); err != nil {
-			if err == io.EOF {
-				break
-			}
-			return "bad case: " + err.Error()
+		dec := json.NewDecoder(strings.NewReader(tx))
+		dec.UseNumber()
+		if err := dec.Decode(&v); err != nil || !json.Valid([]byte(tx)) {
+			return fmt.Sprintf("bad case: the harness recogniser accepted %q, encoding/json does not: %v", trunc(tx, 200), err)
 		}
 		want = append(want, v)
 	}
@@ -762,42 +770,96 @@ func checkData(dc dataCase) string {
 		return "harness: " + err.Error()
 	}
 	defer os.RemoveAll(root)
-	p := "L0/d.json"
+	dir := "L0"
+	if dc.Search {
+		dir = "X"
+	}
+	p := dir + "/d.json"
 	if dc.Nested {
-		p = "L0/d/d.json"
+		p = dir + "/d/d.json"
 	}
 	if err := writeFile(root, p, dc.Text); err != nil {
 		return "harness: " + err.Error()
 	}
-	main := `import "d" as $d; $d, $d::d`
+	meta := ""
+	if dc.Search {
+		meta = ` {search: "` + rootMark + `/X"}`
+		if dc.Via != "main" {
+			meta = ` {search: "../X"}`
+		}
+	}
+	main := `import "d" as $d` + meta + `; $d, $d::d`
 	switch dc.Via {
+	case "main":
 	case "module":
 		main = `import "m" as m; m::a, m::b`
 	case "include":
 		main = `include "m"; a, b`
+	default:
+		return "bad case: via " + dc.Via
 	}
 	if dc.Via != "main" {
-		if err := writeFile(root, "L0/m.jq", `import "d" as $d; def a: $d; def b: $d::d;`); err != nil {
+		if err := writeFile(root, "L0/m.jq", `import "d" as $d`+meta+`; def a: $d; def b: $d::d;`); err != nil {
 			return "harness: " + err.Error()
 		}
 	}
 	c := treeCase{Mode: "lib", Paths: []string{"L0"}}
-	o := runLib(root, &c, main, false)
+	var o outcome
+	if dc.CLI {
+		c.Mode = "cli"
+		o = runCLI(root, &c, main)
+	} else {
+		o = runLib(root, &c, main, false)
+	}
+	if o.harness != "" {
+		return "harness: " + o.harness
+	}
+	if o.budget {
+		rec.Discard("budget")
+		return ""
+	}
 	if o.panic != "" {
 		return "gojq panicked: " + o.panic
 	}
+	how := "library"
+	if dc.CLI {
+		how = "command"
+	}
+	if !accepted {
+		if o.cerr == nil || len(o.vals) > 0 {
+			return fmt.Sprintf("data file %q is not a white-space separated sequence of JSON values, yet (%s) compile error = %v, run error = %v, outputs %s",
+				trunc(dc.Text, 300), how, o.cerr, o.rerr, trunc(univ.ShowAll(o.vals), 400))
+		}
+		return ""
+	}
 	if o.cerr != nil || o.rerr != nil {
-		return fmt.Sprintf("data file %q: %v %v", trunc(dc.Text, 300), o.cerr, o.rerr)
+		return fmt.Sprintf("data file %q (%s): %v %v", trunc(dc.Text, 300), how, o.cerr, o.rerr)
 	}
 	if len(o.vals) != 2 {
-		return fmt.Sprintf("data file %q: expected two outputs, got %s", trunc(dc.Text, 300), univ.ShowAll(o.vals))
+		return fmt.Sprintf("data file %q (%s): expected two outputs, got %s", trunc(dc.Text, 300), how, univ.ShowAll(o.vals))
 	}
 	for i, name := range []string{"$d", "$d::d"} {
 		if !univ.Equal(o.vals[i], want) {
-			return fmt.Sprintf("data file %q: %s is %s, the file holds %s", trunc(dc.Text, 300), name, trunc(univ.Show(o.vals[i]), 500), trunc(univ.Show(want), 500))
+			return fmt.Sprintf("data file %q (%s): %s is %s, the file holds %s", trunc(dc.Text, 300), how, name, trunc(univ.Show(o.vals[i]), 500), trunc(univ.Show(want), 500))
 		}
 	}
 	return ""
+}
+
+// malformed pieces a data file may be interrupted by
+var badPieces = []struct{ name, text string }{
+	{"stray-]", "]"},
+	{"stray-}", "}"},
+	{"stray-comma", ","},
+	{"colon", ":"},
+	{"unterminated-string", `"abc`},
+	{"truncated-literal", "tru"},
+	{"unclosed-array", "[1,"},
+	{"NUL", "\x00"},
+	{"comment-#", "# c\n"},
+	{"comment-//", "// c\n"},
+	{"garbage-x", "x"},
+	{"unclosed-object", `{"a":`},
 }
 
 // ---------------------------------------------------------------------------
@@ -1128,29 +1190,99 @@ func TestC18(t *testing.T) {
 		}
 	})
 
-	// (R4) data files
+	// (E3) every malformed piece at the start, between values and at the end,
+	// with and without white space around it, through the library; each
+	// piece once through the command
+	{
+		idx := 0
+		completeData := true
+		for pi, bp := range badPieces {
+			for _, ws := range []string{"", " ", "\n"} {
+				for pos, text := range []string{
+					bp.text + ws + `{"a":1}` + "\n",
+					`{"a":1}` + "\n" + bp.text + ws + `{"b":2}` + "\n",
+					"1 " + bp.text + ws + "2",
+					`[1] "s"` + ws + bp.text,
+					`{"a":1}` + ws + bp.text + "\n",
+					bp.text,
+				} {
+					idx++
+					if !rec.Mine(idx) {
+						continue
+					}
+					dc := dataCase{Text: text, Via: []string{"main", "module", "include"}[(pi+pos)%3], Nested: pos%2 == 1, Search: (pi+pos)%4 == 0}
+					dc.CLI = ws == " " && pos == 1
+					rec.Eval()
+					rec.Class("data/malformed-enumerated:" + bp.name)
+					rec.NT("data/" + dc.Text + "/" + dc.Via)
+					if msg := checkData(dc); msg != "" {
+						rec.Direct("data", dc, "%s", msg)
+						completeData = false
+					}
+				}
+			}
+		}
+		rec.Exhaustive(fmt.Sprintf("malformed-data-files(%d pieces x 3 spacings x 6 positions)", len(badPieces)), completeData)
+	}
+
+	// (R4) data files: 0-4 values with drawn white space, optionally one
+	// malformed piece at the start, between values or at the end
 	rec.Rapid(t, "data", rec.Scale(10000, 100000), func(t *rapid.T) {
-		n := rapid.IntRange(0, 5).Draw(t, "nvals")
+		n := rapid.IntRange(0, 4).Draw(t, "nvals")
+		wsGen := rapid.SampledFrom([]string{"\n", " ", "\r\n", "\t", "\n\n", "  "})
+		optWS := rapid.SampledFrom([]string{"", "", " ", "\n", "\t"})
+		bad, badAt := -1, 0
+		if rapid.IntRange(0, 2).Draw(t, "malformed") == 0 {
+			bad = rapid.IntRange(0, len(badPieces)-1).Draw(t, "piece")
+			badAt = rapid.IntRange(0, n).Draw(t, "at") // before value badAt (n: at the end)
+		}
 		var sb strings.Builder
-		sb.WriteString(rapid.SampledFrom([]string{"", "", "\n", "  "}).Draw(t, "lead"))
-		for i := 0; i < n; i++ {
+		sb.WriteString(optWS.Draw(t, "lead"))
+		for i := 0; i <= n; i++ {
+			if i == badAt && bad >= 0 {
+				sb.WriteString(badPieces[bad].text)
+				sb.WriteString(optWS.Draw(t, "afterbad"))
+			}
+			if i == n {
+				break
+			}
 			v := gen.Value(gen.Opt{Reps: true, MaxDepth: 2, MaxWidth: 3}).Draw(t, "val")
 			txt, ok := univ.JSONText(v)
 			if !ok {
 				txt = "null"
 			}
 			sb.WriteString(txt)
-			sep := rapid.SampledFrom([]string{"\n", " ", "\r\n", "\t", "\n\n"}).Draw(t, "sep")
-			if i == n-1 && rapid.Bool().Draw(t, "noeol") {
-				sep = ""
+			switch {
+			case i == n-1 && badAt != n:
+				sb.WriteString(optWS.Draw(t, "trail"))
+			case i+1 == badAt && bad >= 0:
+				sb.WriteString(optWS.Draw(t, "beforebad"))
+			default:
+				sb.WriteString(wsGen.Draw(t, "sep"))
 			}
-			sb.WriteString(sep)
 		}
-		dc := dataCase{Text: sb.String(), Nested: rapid.Bool().Draw(t, "nested"), Via: rapid.SampledFrom([]string{"main", "module", "include"}).Draw(t, "via")}
+		dc := dataCase{Text: sb.String(), Nested: rapid.Bool().Draw(t, "nested"), Via: rapid.SampledFrom([]string{"main", "module", "include"}).Draw(t, "via"),
+			Search: rapid.IntRange(0, 2).Draw(t, "search") == 0, CLI: rapid.IntRange(0, 7).Draw(t, "cli") == 0}
 		rec.Eval()
+		_, accepted, _ := scanDataFile(dc.Text)
 		rec.Class(fmt.Sprintf("data/%d-values", n))
 		rec.Class("data/via-" + dc.Via)
-		if n != 1 {
+		if bad >= 0 {
+			rec.Class("data/malformed:" + badPieces[bad].name)
+			if accepted {
+				rec.Class("data/malformed-piece-yet-well-formed-file")
+			}
+		}
+		if !accepted {
+			rec.Class("data/rejected-by-the-model")
+		}
+		if dc.CLI {
+			rec.Class("data/through-the-command")
+		}
+		if dc.Search {
+			rec.Class("data/through-a-search-entry")
+		}
+		if n != 1 || bad >= 0 {
 			rec.NT("data/" + dc.Text + "/" + dc.Via)
 		}
 		if msg := checkData(dc); msg != "" {
